@@ -145,6 +145,34 @@ func hw_untypedsub(sub kcache.Subscription, mu *sync.Mutex, out *[]evRec) {
 	}
 }
 
+// sigOf abstracts an observation from the type and the namespace layout of a package: keys become their index
+// in the scenario's key list.  Every typed package is an instance of one template, so the same scenario (same
+// seed) gives the same signature in every package.
+func sigOf(evs []evRec, keys [][2]string) string {
+	idx := map[string]string{}
+	for i, k := range keys {
+		idx[k[0]+"/"+k[1]] = fmt.Sprintf("k%d", i)
+	}
+	norm := func(k string) string {
+		var out []string
+		for _, part := range strings.Split(k, ",") {
+			if v, ok := idx[part]; ok {
+				out = append(out, v)
+			} else if part == "<nil>" || part == "" {
+				out = append(out, part)
+			} else {
+				out = append(out, "other")
+			}
+		}
+		return strings.Join(out, ",")
+	}
+	var r []string
+	for _, e := range evs {
+		r = append(r, e.et+":"+norm(e.key)+":"+e.rv)
+	}
+	return strings.Join(r, " ")
+}
+
 func typedMain(args []string) int {
 	fs := flag.NewFlagSet("typed", flag.ExitOnError)
 	out := fs.String("out", "", "output ndjson file")
@@ -155,7 +183,8 @@ func typedMain(args []string) int {
 	w := newNDWriter(*out)
 	for r := 0; r < *rounds; r++ {
 		for i, p := range typedPkgs() {
-			runTypedScenario(w, p, *seed*1000+int64(r*100+i))
+			// three scenarios per round, each run by four packages: instances of one template agree on it
+			runTypedScenario(w, p, *seed*1000+int64(r*100+i%3))
 		}
 	}
 	for r := 0; r < *rounds; r++ {
@@ -315,6 +344,7 @@ func runTypedScenario(w *ndWriter, p typedPkg, seed int64) {
 		quiet := quiesce(theTracer, 3*time.Second)
 		mu.Lock()
 		te, ue, me, ume := evsJSONT(tev), evsJSONT(uev), evsJSONT(mev), evsJSONT(umev)
+		sig := "events[" + sigOf(tev, keys) + "] monitor[" + sigOf(mev, keys) + "]"
 		mu.Unlock()
 		// cache listings
 		var tl, ul []string
@@ -345,9 +375,9 @@ func runTypedScenario(w *ndWriter, p typedPkg, seed int64) {
 		for k := range foreign {
 			fk = append(fk, k)
 		}
-		w.write2(fmt.Sprintf(`{"k":"typed.snap","pkg":%q,"tag":%q,"seed":%d,"quiet":%v,"tev":%s,"uev":%s,"tlist":%s,"ulist":%s,"tlisterr":%v,"ulisterr":%v,"foreign":%s,"foreign_get":%q,"tready":%v,"uready":%v,"tdone":%v,"udone":%v,"tmon":%s,"umon":%s}`,
+		w.write2(fmt.Sprintf(`{"k":"typed.snap","pkg":%q,"tag":%q,"seed":%d,"quiet":%v,"tev":%s,"uev":%s,"tlist":%s,"ulist":%s,"tlisterr":%v,"ulisterr":%v,"foreign":%s,"foreign_get":%q,"tready":%v,"uready":%v,"tdone":%v,"udone":%v,"tmon":%s,"umon":%s,"sig":%q}`,
 			p.name, tag, seed, quiet, te, ue, jsStrs(tl), jsStrs(ul), tlerr, ulerr != nil, jsStrs(fk), fg, isClosed(tready), isClosed(uc.Ready()),
-			isClosed(chanOf(call(tc, "Done")[0])), isClosed(uc.Done()), me, ume))
+			isClosed(chanOf(call(tc, "Done")[0])), isClosed(uc.Done()), me, ume, sig))
 	}
 	if gated {
 		emit("gated")
